@@ -140,6 +140,7 @@ type c16result struct {
 }
 
 type c16env struct {
+	listening bool // Server.Start was called on the running server
 	db        *bbolt.DB
 	dir       string
 	keys      []*key.Pair // the servers' keys (op "keys"; one random key otherwise)
@@ -299,6 +300,7 @@ func (e *c16env) stop() {
 			sp.main = e.main // a concurrent segment replaces the map
 		}
 		e.srv = nil
+		e.listening = false
 		e.ctx = nil
 		e.db = nil
 		e.bnames = nil
@@ -902,6 +904,28 @@ func c16run(res *c16result, mu *sync.Mutex, dir string, class string) {
 			}
 			e.kinds["crash"] = true
 			emit("ok")
+		case tk[1] == "listen" && len(tk) == 2:
+			// the server is started for real (Server.Start: router and websocket listen, IsStarted is set): the storage
+			// calls and the Close that follow run on a listening server (Server.Close takes its IsStarted branch)
+			if e.srv == nil || e.tmp || e.listening {
+				emit("bad-op")
+				continue
+			}
+			up := make(chan struct{})
+			srv := e.srv
+			go func() {
+				srv.StartInBackground()
+				close(up)
+			}()
+			select {
+			case <-up:
+				e.listening = true
+				e.kinds["listen"] = true
+				emit("ok")
+			case <-time.After(5 * time.Second):
+				fail("server-start", "Server.StartInBackground did not return within 5 s")
+				emit("hang")
+			}
 		case tk[1] == "stop" && len(tk) == 2:
 			if e.srv == nil {
 				emit("bad-op")
@@ -1183,7 +1207,7 @@ func c16run(res *c16result, mu *sync.Mutex, dir string, class string) {
 		e.recheck("closing the server", fail)
 	}
 	var ks []string
-	for _, k := range []string{"save", "savebad", "load", "raw", "savever", "loadver", "addb", "bput", "bget", "bdel", "par", "startk", "mvold", "cpold", "ls", "datadir"} {
+	for _, k := range []string{"listen", "save", "savebad", "load", "raw", "savever", "loadver", "addb", "bput", "bget", "bdel", "par", "startk", "mvold", "cpold", "ls", "datadir"} {
 		if e.kinds[k] {
 			ks = append(ks, k)
 		}
@@ -1710,6 +1734,56 @@ func c16genAll(c *h.Ctx, yield func(*h.Case)) {
 			op("raw %s %s", sk[0], sk[1])
 			op("load %s %s", sk[0], sk[1])
 		}
+		yield(cs)
+	}
+	// ---- a server that listens (Server.Start): storage calls on it, Close through its IsStarted branch, restart
+	start("corpus-listening-server")
+	op("start c16a,c16b")
+	op("listen")
+	op("listen") // refused: it listens already
+	op("save c16a %s %s", c16hex([]byte("k")), valueOf(&C16Rec{I: 5, S: "saved while listening"}))
+	op("savever c16b 3")
+	op("addb c16a %s", c16hex([]byte("x")))
+	op("bput c16a %s %s %s", c16hex([]byte("x")), c16hex([]byte("k")), c16hex([]byte{1, 2, 3}))
+	op("stop")
+	op("start c16a,c16b")
+	op("load c16a %s", c16hex([]byte("k")))
+	op("loadver c16b")
+	op("addb c16a %s", c16hex([]byte("x"))) // the handle and the name again, as a service does after a start
+	op("bget c16a %s %s", c16hex([]byte("x")), c16hex([]byte("k")))
+	op("listen")
+	op("crash")
+	op("start c16a,c16b")
+	op("raw c16a %s", c16hex([]byte("k")))
+	op("stop")
+	op("listen") // refused: no server
+	yield(cs)
+	for i := 0; i < c.Pick(8, 80); i++ {
+		start("listening")
+		svcs := subset(c16premise, 2)
+		lookFor := map[string][][]byte{}
+		for round := 0; round < 2+r.Intn(2); round++ {
+			op("start %s", strings.Join(svcs, ","))
+			op("addb %s %s", svcs[0], c16hex(bucketPool[r.Intn(len(bucketPool))])) // the database handle for direct bucket access
+			for q := r.Intn(3); q > 0; q-- {
+				call(svcs[r.Intn(len(svcs))], lookFor)
+			}
+			if round == 0 || r.Intn(2) == 0 {
+				op("listen")
+				c.Count("op=listen")
+			}
+			for q := 1 + r.Intn(5); q > 0; q-- {
+				call(svcs[r.Intn(len(svcs))], lookFor)
+			}
+			if r.Intn(4) == 0 {
+				op("crash")
+			} else {
+				op("stop")
+			}
+		}
+		op("start %s", strings.Join(svcs, ","))
+		op("addb %s %s", svcs[0], c16hex(bucketPool[r.Intn(len(bucketPool))]))
+		readAll(svcs, lookFor)
 		yield(cs)
 	}
 	start("corpus-two-servers-one-directory")
